@@ -695,7 +695,7 @@ Qed.
 Theorem convert_total s : exists o, convert s = Ok o.
 Proof.
   unfold convert. destruct (conv_total (S (length s)) init_items s init_items_ok) as [o Ho]; [lia|].
-  rewrite Ho. exists (trim o). reflexivity.
+  rewrite Ho. exists (trim_end o). reflexivity.
 Qed.
 
 (* ------------------------------------------------------------------------------------------ *)
@@ -937,7 +937,7 @@ Qed.
 Lemma init_first_nonascii : forallb first_nonascii (sl_items init_items) = true.
 Proof. vm_compute. reflexivity. Qed.
 
-Theorem convert_ascii_identity s : passthru is_ascii s -> convert s = Ok (trim s).
+Theorem convert_ascii_identity s : passthru is_ascii s -> convert s = Ok (trim_end s).
 Proof.
   intros Hp. unfold convert.
   rewrite (conv_passthru _ init_items s init_items_ok init_first_nonascii Hp) by lia. reflexivity.
@@ -1006,7 +1006,7 @@ Proof.
 Qed.
 
 Theorem convert_homomorphism ps :
-  segmented sutoton_table ps [] = true -> convert (src_of ps) = Ok (trim (translit ps)).
+  segmented sutoton_table ps [] = true -> convert (src_of ps) = Ok (trim_end (translit ps)).
 Proof.
   intros Hseg. unfold convert.
   rewrite <- (app_nil_r (src_of ps)) at 2.
@@ -1125,7 +1125,7 @@ Proof.
 Qed.
 
 (* ------------------------------------------------------------------------------------------ *)
-(* 11. trim = the specification's strip; the '#' comment forms are not protected                *)
+(* 11. trim_end = the specification's strip_right; the '#' comment forms are not protected                *)
 (* ------------------------------------------------------------------------------------------ *)
 Lemma is_whitespace_white c : is_whitespace c = white c.
 Proof. reflexivity. Qed.
@@ -1149,6 +1149,9 @@ Qed.
 
 Theorem trim_is_strip s : trim s = strip s.
 Proof. unfold trim, strip. rewrite trim_end_rev. reflexivity. Qed.
+
+Theorem trim_end_is_strip_right s : trim_end s = strip_right s.
+Proof. apply trim_end_rev. Qed.
 
 (* "c # ド" -> "c # c": text inside a '#' line comment is rewritten *)
 Lemma hash_comment_rewritten : convert [99; 32; 35; 32; 12489] = Ok [99; 32; 35; 32; 99].
@@ -1185,8 +1188,8 @@ Theorem table_facts :
     (forall c, In c v -> 0 <= c < 128 /\ c <> 126 /\ c <> 123 /\ c <> 47).
 Proof. split; [exact table_names_unique | exact table_no_ascii]. Qed.
 
-Theorem ascii_identity s : passthru is_ascii s -> convert s = Ok (strip s).
-Proof. intros H. rewrite <- trim_is_strip. apply convert_ascii_identity. exact H. Qed.
+Theorem ascii_identity s : passthru is_ascii s -> convert s = Ok (strip_right s).
+Proof. intros H. rewrite <- trim_end_is_strip_right. apply convert_ascii_identity. exact H. Qed.
 
 Theorem verbatim_all f sl r : sl_ok sl ->
   (forall body, occursb [34; 125] ([123; 34] ++ body) = false ->
@@ -1207,12 +1210,12 @@ Proof.
 Qed.
 
 Theorem hash_comment_refuted :
-  convert [99; 32; 35; 32; 12489] = Ok [99; 32; 35; 32; 99] /\ [99; 32; 35; 32; 99] <> strip [99; 32; 35; 32; 12489].
+  convert [99; 32; 35; 32; 12489] = Ok [99; 32; 35; 32; 99] /\ [99; 32; 35; 32; 99] <> strip_right [99; 32; 35; 32; 12489].
 Proof. split; [exact hash_comment_rewritten | vm_compute; discriminate]. Qed.
 
 Theorem homomorphism ps :
-  segmented sutoton_table ps [] = true -> convert (src_of ps) = Ok (strip (translit ps)).
-Proof. intros H. rewrite <- trim_is_strip. apply convert_homomorphism. exact H. Qed.
+  segmented sutoton_table ps [] = true -> convert (src_of ps) = Ok (strip_right (translit ps)).
+Proof. intros H. rewrite <- trim_end_is_strip_right. apply convert_homomorphism. exact H. Qed.
 
 Theorem total_all :
   (forall s, exists o, convert s = Ok o) /\
